@@ -58,6 +58,20 @@ class ResDomain(Domain):
         elif d.t == {'next': -1, 'bound': 1} and d.c == 0: key = 'nb'; d = -d; op = {'<': '>', '>': '<', '<=': '>=', '>=': '<='}.get(op, op)
         elif d.t == {'next': 1, 'bound2': -1} and d.c == 0: key = 'ord_after'  # own ticket (the pre-increment counter) vs the bound seen after a wake-up
         elif d.t == {'next': -1, 'bound2': 1} and d.c == 0: key = 'ord_after'; d = -d; op = {'<': '>', '>': '<', '<=': '>=', '>=': '<='}.get(op, op)
+        if key is None and set(d.t) == {'front.ub', 'bound'} and d.t['front.ub'] == -d.t['bound'] and abs(d.t['bound']) == 1 and 'batch1' in self.val:
+            # size of the batch at the front of the queue, front.ub - bound >= 1: the row says whether it is exactly one request
+            if d.t['front.ub'] == -1: d = -d; op = {'<': '>', '>': '<', '<=': '>=', '>=': '<='}.get(op, op)
+            self.consulted.add('batch1')
+            import operator
+            OPF = {'<': operator.lt, '<=': operator.le, '>': operator.gt, '>=': operator.ge, '==': operator.eq, '!=': operator.ne}
+            if self.val['batch1']: return OPF[op](1 + d.c, 0)
+            if d.c >= -1: return OPF[op](1, 0)           # batch >= 2 and batch + c >= 1
+            return None
+        if key is None and set(d.t) == {'cnt'} and abs(d.t['cnt']) == 1 and self.val.get('cnt1') is True and not (d.c == -1 * d.t['cnt']):
+            # the holder count is exactly 1 in this row (cnt - 1 == 0): any other comparison of cnt with a constant is decided
+            self.consulted.add('cnt1')
+            import operator
+            return {'<': operator.lt, '<=': operator.le, '>': operator.gt, '>=': operator.ge, '==': operator.eq, '!=': operator.ne}[op](d.t['cnt'] * 1 + d.c, 0)
         if key == 'nb':
             if 'QE' not in self.val: return None
             self.consulted.add('QE')
@@ -72,6 +86,45 @@ class ResDomain(Domain):
                 sign = {'<': -1, '=': 0, '>': 1}[v]
         import operator
         return {'<': operator.lt, '<=': operator.le, '>': operator.gt, '>=': operator.ge, '==': operator.eq, '!=': operator.ne}[op](sign, 0)
+
+    def _queue_search(self, ex, n, q, st, fr):
+        """std::find_if / std::ranges::find_if over m_queue with a predicate closure: (value,) or None.
+        A forward search that accepts the front entry yields the front entry, a reverse search that accepts the back entry the back entry
+        (exact for every queue).  Otherwise, if the entry at the other end is accepted, the search yields that entry in the queue that
+        consists of exactly these two entries: good enough as the witness of a violation, not for a proof (witness_only)."""
+        from facts import strip_targs
+        qs = strip_targs(q)
+        if qs not in ('std::find_if', 'std::ranges::find_if', 'std::ranges::__find_if_fn::operator()'): return None
+        args = [a for a in n.ns('args') if a is not None]
+        if qs.endswith('operator()') and args: args = args[1:]
+        vals = [ex._rvalue(a, st, fr) for a in args]
+        clo = next((v for v in vals if isinstance(v, Closure) and v.fn is not None), None)
+        if clo is None: return None
+        def is_q(a):
+            return any(x.is_field('m_queue', CLS) for x in a.walk())
+        names = [(a.callee_base() if a.k == 'call' else None) for a in args]
+        rng = [a for a in args if is_q(a)]
+        if not rng: return None
+        reverse = any(nm in ('rbegin', 'crbegin') for nm in names) or any('reverse' in (a.text() or '') for a in rng)
+        def accepts(which):
+            rec = Record({'type': E(self.val[which]), 'upperBound': Lin.sym(which + '.ub')}, tag=which)
+            self.consulted.add(which)
+            rets = {P_.ret if isinstance(P_.ret, bool) else None for P_ in ex.run_closure(clo, args=[rec], this_path=fr.this)}
+            return next(iter(rets)) if len(rets) == 1 else None
+        self.consulted.add('QE')
+        if self.val.get('QE'): return (Unknown('q.end'),)          # nothing to find in an empty queue
+        first, second = ('back', 'front') if reverse else ('front', 'back')
+        self.consulted.update(('front', 'back'))         # which entry a search yields depends on both ends: keep the rows apart
+        a1 = accepts(first)
+        if a1 is True: return (Ref(('f', fr.this + ('m_queue', '@' + first))),)
+        if a1 is False:
+            a2 = accepts(second)
+            if a2 is True:
+                self.witness_only = True
+                return (Ref(('f', fr.this + ('m_queue', '@' + second))),)
+        return (Unknown('q.search'),)
+
+    witness_only = False
 
     def ext_call(self, ex, n, st, fr):
         k = n.k
@@ -90,6 +143,19 @@ class ResDomain(Domain):
         base = q.split('::')[-1]
         obj = n.n('object')
         if obj is None and n.ck == 'op' and n.ns('args'): obj = n.ns('args')[0]
+        r_ = self._queue_search(ex, n, q, st, fr)
+        if r_ is not None: return r_[0]
+        if n.ck == 'op' and base in ('operator==', 'operator!=', 'operator->', 'operator*') and n.ns('args'):
+            # iterators into the queue: the result of a search is (a reference to) the front / back entry
+            vals = [ex._rvalue(a, st, fr) if a is not None else None for a in n.ns('args')]
+            vals = [ex.read(v.loc, st, n) if isinstance(v, Ref) and isinstance(ex.read(v.loc, st, n), (Ref, Unknown)) else v for v in vals]
+            vals = [Ref(('f', fr.this + ('m_queue', '@' + v.tag))) if isinstance(v, Record) and getattr(v, 'tag', None) in ('front', 'back') else v for v in vals]
+            ent = [v for v in vals if isinstance(v, Ref) and len(v.loc) == 2 and v.loc[0] == 'f' and v.loc[1][-1] in ('@front', '@back')]
+            if base in ('operator->', 'operator*') and ent: return ent[0]
+            if base in ('operator==', 'operator!=') and len(vals) == 2 and ent:
+                other = [v for v in vals if v is not ent[0]]
+                if other and isinstance(other[0], Unknown) and str(other[0].tag) == 'q.end': return base == 'operator!='
+                if len(ent) == 2: return (ent[0].loc == ent[1].loc) == (base == 'operator==')
         if obj is not None and obj.is_field('m_queue', CLS):
             qpath = ('f', fr.this + ('m_queue',))
             if base == 'empty': self.consulted.add('QE'); return bool(self.val['QE'])
@@ -97,6 +163,8 @@ class ResDomain(Domain):
             if base in ('push_back', 'emplace_back', 'push_front', 'emplace_front'):
                 a = [ex._rvalue(x, st, fr) for x in n.ns('args') if x is not None]
                 st.events.append(('q', n, (base, a[0] if len(a) == 1 else a))); return None
+            if base in ('end', 'cend', 'rend', 'crend'): return Unknown('q.end')
+            if base in ('begin', 'cbegin', 'rbegin', 'crbegin', 'size'): return Unknown('q.' + base)          # looking at the queue is not a queue operation
             st.events.append(('q', n, (base, None)))
             return Unknown('q.' + base)
         if obj is not None and obj.is_field('m_cv', CLS):
@@ -115,6 +183,9 @@ class ResDomain(Domain):
         if q.startswith('std::unique_lock') or q.startswith('std::condition_variable'):
             st.events.append(('sync', n, base)); return None
         return Unknown(f'call:{q}@{n.line}')
+
+
+def _queue_search_doc(): pass
 
 
 def fld(store, this, name, dom):
@@ -235,6 +306,16 @@ class ResourceAnalysis:
         return out
 
     def _lock_path(self, P, v, row, dom, this, site, used):
+        if getattr(dom, 'witness_only', False):
+            # a search over the queue was answered for the two-entry queue only: refutations stand, proofs do not
+            orig = self.add
+            def weak(rule, ok, inst, site_, why='', *a, **k):
+                if ok is True: return orig(rule, None, inst, site_, 'a search over the request queue was evaluated for the queue that consists of its front and back entry only: not a proof for longer queues', *a, **k)
+                return orig(rule, ok, inst, site_, why, *a, **k)
+            self.add = weak
+            try: dom.witness_only = False; self._lock_path(P, v, row, dom, this, site, used)
+            finally: self.add = orig; dom.witness_only = True
+            return
         if P.unknown_atoms:
             c = P.unknown_atoms[0]
             self.unknown('RES.2', f'row {row}', c.shortloc(), f'branch atom outside the table vocabulary: {c.text()[:80]}')
@@ -316,9 +397,12 @@ class ResourceAnalysis:
             val = ext[0][2][1]
             ok6 = want_ext and tgt == '@back'
             why = ''
-            if tgt != '@back': why = f'extends the {tgt[1:]} queue entry instead of the back one: {row}'
+            if tgt != '@back' and v['front'] == v['back']:
+                # the queue may consist of one entry, which is then both its front and its back: not a witness
+                self.unknown('RES.6', f'row {row}: extend', ext[0][1].shortloc(), f'the {tgt[1:]} entry is extended; whether that is also the back entry is not known in this row'); ok6 = None
+            if tgt != '@back': why = f'extends the {tgt[1:]} queue entry instead of the back one (the front is a {v["front"]} entry, the back a {v["back"]} entry: a request queued between them is overtaken): {row}'
             elif not want_ext: why = f'merges a {v["t"]} request into the back entry (type {v["back"]}) — only consecutive readers may share an entry: {row}'
-            self.add('RES.6', ok6, f'row {row}: extend', ext[0][1].shortloc(), why)
+            if ok6 is not None: self.add('RES.6', ok6, f'row {row}: extend', ext[0][1].shortloc(), why)
             if not isinstance(val, Lin): self.unknown('RES.8', f'row {row}', ext[0][1].shortloc(), f'extended bound {val} not understood')
             else:
                 okv = val == nxt_at_enqueue and ext[0][2][0][1][-1] == 'upperBound'
@@ -383,45 +467,48 @@ class ResourceAnalysis:
         n = 0
         for cnt1, QE, front, t in itertools.product([True, False], [True, False], ['Read', 'Write'], ['Read', 'Write']):
             if QE and front != 'Read': continue
-            v = dict(cnt1=cnt1, QE=QE, front=front, back=front, op=t, t=t)
-            dom = ResDomain(v); ex = Exec(self.facts, dom)
-            paths = [P_ for P_ in ex.run(f) if P_.end not in ('noreturn', 'throw')]
-            if not cnt1 and (not QE or front != 'Read' or t != 'Read'):
-                if 'QE' not in dom.consulted: continue     # select not reached: one representative row is enough
-            n += 1
-            row = show(v, ['cnt1', 'QE', 'front'])
-            for P in paths:
-                if P.unknown_atoms:
-                    self.unknown('RES.4', f'row {row}', P.unknown_atoms[0].shortloc(), f'branch atom outside the vocabulary: {P.unknown_atoms[0].text()[:80]}'); continue
-                st = P.store
-                sel = [i for i, e in enumerate(P.events) if e[0] == 'enter' and e[2] == f'{CLS}::select']
-                cntw = [e for e in P.events if e[0] == 'write' and e[2][0][0] == 'f' and e[2][0][1][-1] == 'm_activeCount']
-                first = cntw[0][2][1] if cntw else None
-                dec_ok = first == Lin.sym('cnt') - Lin.const(1) and (not sel or all(P.events.index(e) > sel[0] for e in cntw[1:])) and (bool(sel) or len(cntw) == 1)
-                self.add('RES.4', dec_ok, f'row {row}: exactly one decrement of the holder count per unlock', cntw[0][1].shortloc() if cntw else site,
-                         '' if dec_ok else f'holder count writes on this path: {[repr(e[2][1]) for e in cntw]} (expected a single cnt-1)')
-                called = bool(sel)
-                self.add('RES.4', called == cnt1, f'row {row}: select() is called iff the decremented count is 0', site,
-                         '' if called == cnt1 else (f'select() runs although holders remain ({row})' if called else f'the last holder leaves without selecting the next request ({row}): queued requests are never granted'))
-                if called:
-                    li = max(i for i, e in enumerate(P.events) if e[0] == 'leave' and e[2] == f'{CLS}::select')
-                    lock_i = [i for i, e in enumerate(P.events) if e[0] in ('mutex.lock', 'guard')]
-                    na = [i for i, e in enumerate(P.events) if e[0] == 'notify_all']
-                    no = [i for i, e in enumerate(P.events) if e[0] == 'notify_one']
-                    ok10 = bool(na) and bool(lock_i) and any(i > lock_i[0] for i in na)
-                    why = ''
-                    if QE and not na and not no:
-                        # nothing was admitted: a request sleeps only after it was queued (RES.2 / RES.8) and the batch it belongs to was
-                        # notified when it was popped, so with an empty queue nobody is waiting for a new bound
-                        self.add('RES.10', True, f'row {row}: the queue is empty, no bound is published and there is nobody to wake', site, '')
+            for batch1 in (True, False):
+                v = dict(cnt1=cnt1, QE=QE, front=front, back=front, op=t, t=t, batch1=batch1)
+                if batch1 is False and (QE or 'batch1' not in getattr(self, '_last_consulted', ())): continue       # only when the code looks at the batch size
+                dom = ResDomain(v); ex = Exec(self.facts, dom)
+                paths = [P_ for P_ in ex.run(f) if P_.end not in ('noreturn', 'throw')]
+                self._last_consulted = set(dom.consulted)
+                if not cnt1 and (not QE or front != 'Read' or t != 'Read'):
+                    if 'QE' not in dom.consulted: continue     # select not reached: one representative row is enough
+                n += 1
+                row = show(v, ['cnt1', 'QE', 'front'] + (['batch1'] if 'batch1' in dom.consulted else []))
+                for P in paths:
+                    if P.unknown_atoms:
+                        self.unknown('RES.4', f'row {row}', P.unknown_atoms[0].shortloc(), f'branch atom outside the vocabulary: {P.unknown_atoms[0].text()[:80]}'); continue
+                    st = P.store
+                    sel = [i for i, e in enumerate(P.events) if e[0] == 'enter' and e[2] == f'{CLS}::select']
+                    cntw = [e for e in P.events if e[0] == 'write' and e[2][0][0] == 'f' and e[2][0][1][-1] == 'm_activeCount']
+                    first = cntw[0][2][1] if cntw else None
+                    dec_ok = first == Lin.sym('cnt') - Lin.const(1) and (not sel or all(P.events.index(e) > sel[0] for e in cntw[1:])) and (bool(sel) or len(cntw) == 1)
+                    self.add('RES.4', dec_ok, f'row {row}: exactly one decrement of the holder count per unlock', cntw[0][1].shortloc() if cntw else site,
+                             '' if dec_ok else f'holder count writes on this path: {[repr(e[2][1]) for e in cntw]} (expected a single cnt-1)')
+                    called = bool(sel)
+                    self.add('RES.4', called == cnt1, f'row {row}: select() is called iff the decremented count is 0', site,
+                             '' if called == cnt1 else (f'select() runs although holders remain ({row})' if called else f'the last holder leaves without selecting the next request ({row}): queued requests are never granted'))
+                    if called:
+                        li = max(i for i, e in enumerate(P.events) if e[0] == 'leave' and e[2] == f'{CLS}::select')
+                        lock_i = [i for i, e in enumerate(P.events) if e[0] in ('mutex.lock', 'guard')]
+                        na = [i for i, e in enumerate(P.events) if e[0] == 'notify_all']
+                        no = [i for i, e in enumerate(P.events) if e[0] == 'notify_one']
+                        ok10 = bool(na) and bool(lock_i) and any(i > lock_i[0] for i in na)
+                        why = ''
+                        if QE and not na and not no:
+                            # nothing was admitted: a request sleeps only after it was queued (RES.2 / RES.8) and the batch it belongs to was
+                            # notified when it was popped, so with an empty queue nobody is waiting for a new bound
+                            self.add('RES.10', True, f'row {row}: the queue is empty, no bound is published and there is nobody to wake', site, '')
+                            self._check_select(P, v, row, dom, this, site)
+                            continue
+                        if not ok10:
+                            why = ('notify_one() instead of notify_all(): waiters with different tickets share one condition variable, the woken thread may not be the admitted one'
+                                   if no else 'no notify_all() accompanies the new bound: admitted waiters are never woken')
+                            if na and lock_i and not any(i > lock_i[0] for i in na): why = 'notify_all() is issued before the critical section that publishes the bound'
+                        self.add('RES.10', ok10, f'row {row}: publishing a bound is accompanied by notify_all()', (P.events[no[0]][1].shortloc() if no and not ok10 else site), why)
                         self._check_select(P, v, row, dom, this, site)
-                        continue
-                    if not ok10:
-                        why = ('notify_one() instead of notify_all(): waiters with different tickets share one condition variable, the woken thread may not be the admitted one'
-                               if no else 'no notify_all() accompanies the new bound: admitted waiters are never woken')
-                        if na and lock_i and not any(i > lock_i[0] for i in na): why = 'notify_all() is issued before the critical section that publishes the bound'
-                    self.add('RES.10', ok10, f'row {row}: publishing a bound is accompanied by notify_all()', (P.events[no[0]][1].shortloc() if no and not ok10 else site), why)
-                    self._check_select(P, v, row, dom, this, site)
         self.n_unlock_rows = n
 
     def _check_select(self, P, v, row, dom, this, site):
@@ -462,15 +549,23 @@ class ResourceAnalysis:
         for name, (callee, mode) in want.items():
             f = self.fn.get(name)
             if f is None: continue
-            calls = [n for n in f.nodes() if n.k == 'call' and n.callee_in_root]
+            allcalls = [n for n in f.nodes() if n.k == 'call' and n.callee_in_root]
+            # the forwarding call itself; other member functions the wrapper calls are judged by what they do to the monitor state (other_writers)
+            calls = [n for n in allcalls if n.calleeq in (f'{CLS}::lock', f'{CLS}::unlock')]
             ok = len(calls) == 1 and calls[0].calleeq == f'{CLS}::{callee}' and calls[0].ns('args') and calls[0].ns('args')[0] is not None \
                 and calls[0].ns('args')[0].k == 'ref' and (calls[0].ns('args')[0].qname or '').endswith('::' + mode) \
                 and calls[0].n('object') is not None and calls[0].n('object').k == 'this'
-            found = f"{calls[0].text()[:60]}" if calls else 'no call'
+            found = f"{calls[0].text()[:60]}" if calls else ('no lock()/unlock() call' + (f' (calls {allcalls[0].text()[:40]})' if allcalls else ''))
             if callee == 'unlock' and calls and calls[0].calleeq == f'{CLS}::unlock' and not ok:
                 # the mode passed to unlock() is only used by an assert (NDEBUG build): note, not a violation
                 self.rep.note(f'{name} passes a different mode to unlock(): {found} (only an assert looks at it)')
                 ok = True
+            if ok:
+                vu = self._unconditional(f, calls[0], 'Resource', name, callee)
+                if vu is not None:
+                    self.add('RES.13', vu[0], f'{name} -> {callee}({mode}) on every path', calls[0].shortloc(), vu[1].replace('the Resource ' + name, name + '()')); continue
+            if not ok and not calls and allcalls:
+                self.add('RES.13', None, f'{name} -> {callee}({mode})', f.shortloc(), f'{name} does not call {callee}() itself ({found}): the forwarding table does not apply'); continue
             self.add('RES.13', ok, f'{name} -> {callee}({mode})', f.shortloc(), '' if ok else f'{name} forwards as {found}')
         for g, lockfn, unlockfn in (('ReadLock', 'lockRead', 'unlockRead'), ('WriteLock', 'lockWrite', 'unlockWrite')):
             cls = f'tulz::rwp::{g}'
@@ -482,21 +577,88 @@ class ResourceAnalysis:
             cc = [n for n in c.nodes() if n.k == 'call' and n.callee_in_root]
             okc = len(cc) == 1 and cc[0].calleeq == f'{CLS}::{lockfn}' and cc[0].n('object') is not None and cc[0].n('object').is_field('m_resource', cls)
             bound = any(i.get('field') == 'm_resource' and Node(c.tu, i['init']).k == 'ref' and Node(c.tu, i['init']).decl == c.d['params'][0]['decl'] for i in c.d.get('inits') or [] if i.get('init'))
-            self.add('RES.13', okc and bound, f'{g}::{g}(r) -> r.{lockfn}()', c.shortloc(),
-                     '' if okc and bound else f'{g} constructor does {[n.text()[:40] for n in cc]} (m_resource bound to the parameter: {bound})')
+            vc = self._unconditional(c, cc[0], g, 'constructor', lockfn) if okc and bound else None
+            if vc is not None: self.add('RES.13', vc[0], f'{g}::{g}(r) -> r.{lockfn}() on every path', cc[0].shortloc(), vc[1])
+            else:
+                self.add('RES.13', okc and bound, f'{g}::{g}(r) -> r.{lockfn}()', c.shortloc(),
+                         '' if okc and bound else f'{g} constructor does {[n.text()[:40] for n in cc]} (m_resource bound to the parameter: {bound})')
             dc = [n for n in d.nodes() if n.k == 'call' and n.callee_in_root]
             okd = len(dc) == 1 and dc[0].calleeq == f'{CLS}::{unlockfn}' and dc[0].n('object') is not None and dc[0].n('object').is_field('m_resource', cls)
             if len(dc) == 1 and dc[0].calleeq in (f'{CLS}::unlockRead', f'{CLS}::unlockWrite') and not okd and dc[0].n('object') is not None and dc[0].n('object').is_field('m_resource', cls):
                 self.rep.note(f'{g} destructor calls {dc[0].calleeq.split("::")[-1]}() (mode only used by an assert)'); okd = True
-            self.add('RES.13', okd, f'{g}::~{g}() -> m_resource.{unlockfn}() exactly once', d.shortloc(), '' if okd else f'{g} destructor does {[n.text()[:40] for n in dc]}')
+            vd = self._unconditional(d, dc[0], g, 'destructor', unlockfn) if okd else None
+            if vd is not None: self.add('RES.13', vd[0], f'{g}::~{g}() -> m_resource.{unlockfn}() on every path', dc[0].shortloc(), vd[1])
+            else: self.add('RES.13', okd, f'{g}::~{g}() -> m_resource.{unlockfn}() exactly once', d.shortloc(), '' if okd else f'{g} destructor does {[n.text()[:40] for n in dc]}')
             cl = self.facts.cls(cls)
             fr = [x for x in (cl or {}).get('fields', []) if x['name'] == 'm_resource']
             self.add('RES.13', bool(fr) and fr[0]['isref'], f'{g} is not copyable (reference member)', c.shortloc(), '' if fr and fr[0]['isref'] else 'm_resource is not a reference: a copied guard unlocks twice')
+
+    # ---- other functions that touch the monitor state ---------------------------------------------------------------------------
+    def other_writers(self):
+        """every member function of the class other than lock / unlock / select / enqueue (and what they inline) that changes the
+        holder count is another way into or out of the lock: each of its paths that credits a holder without waiting is judged like
+        the fast path of lock() (never past a non-empty queue, never next to a writer)"""
+        core = {self.fn[k].name for k in ('lock', 'unlock', 'select', 'enqueue') if k in self.fn}
+        this = ('this',)
+        for g in self.facts.fns:
+            if g.d.get('class') != CLS or g.d.get('lambda') or g.d.get('ctor') or g.d.get('dtor') or g.name in core: continue
+            touches = any(n.k == 'member' and n.name in ('m_activeCount',) and n.n('base') is not None and n.n('base').k == 'this' for n in g.nodes())
+            if not touches: continue
+            seen = set()
+            for v in rows_lock():
+                dom = ResDomain(v); ex = Exec(self.facts, dom)
+                try: paths = [P_ for P_ in ex.run(g, args=None) if P_.end not in ('noreturn', 'throw')]
+                except Inconclusive as e_:
+                    self.unknown('RES.2', f'{g.name}', g.shortloc(), str(e_)); break
+                used = tuple(sorted(dom.consulted))
+                sig = tuple((k, v[k]) for k in sorted(set(used) | {'QE', 'op'}) if k in v)
+                if sig in seen: continue
+                seen.add(sig)
+                row = show(v, ['QE', 'op'] + (['t'] if 't' in used else []))
+                for P in paths:
+                    cw = self._writes(P, 'm_activeCount')
+                    if not cw or any(e[0] == 'wait' for e in P.events): continue
+                    val = cw[-1][2][1]
+                    if not isinstance(val, Lin):
+                        self.unknown('RES.3', f'{g.name} row {row}', cw[0][1].shortloc(), f'holder count set to a value the evaluator cannot follow ({val})'); continue
+                    d = val - Lin.sym('cnt')
+                    if not (d.is_const() and d.c > 0): continue          # not an admission
+                    short = g.name.split('::')[-1]
+                    self.add('RES.2b', v['QE'], f'{short}() row {row}: a holder is credited without waiting only when nothing is queued', cw[0][1].shortloc(),
+                             '' if v['QE'] else f'{short}() counts the caller as a holder although a request is queued ({row}): it overtakes every waiting request (a writer that waits for the readers to leave can be starved / passed)')
+                    okop = v['op'] in ('None', 'Read')
+                    self.add('RES.2a', okop, f'{short}() row {row}: a holder is credited without waiting only when no writer holds the lock', cw[0][1].shortloc(),
+                             '' if okop else f'{short}() counts the caller as a holder while a writer holds the lock ({row})')
+
+    def _unconditional(self, fn, call, g, what, opname):
+        """None if `call` is executed on every path of fn; otherwise (verdict, why): a guard that skips the operation on a condition that
+        does not depend on the guarded resource is refuted (the same condition holds while another Resource is guarded); any other
+        condition is not decided"""
+        pos = fn.cfg.position(call)
+        if pos is not None and pos[0] in fn.cfg.pdom.get(fn.cfg.entry, ()): return None         # reached on every path that returns
+        conds = common.conditions_at(fn, call)
+        if not conds:
+            # no single dominating branch edge (`a || b`): take the condition of the innermost if / loop / ?: that contains the call
+            pm = common.parent_map(fn); x = call
+            while x is not None and x.id in pm:
+                par = pm[x.id]
+                if par.k in ('if', 'while', 'for', 'cond') and par.n('c') is not None and not any(y.id == call.id for y in par.n('c').walk()):
+                    conds = [(par.n('c'), True)]; break
+                x = par
+        if not conds: return None, f'the {g} {what} does not call {opname}() on every path (the condition was not recognised)'
+        def local_to_guard(x):
+            return x.k == 'this' or (x.k == 'member' and x.n('base') is not None and x.n('base').k == 'this') or (x.k == 'ref' and x.dk in ('param', 'local'))
+        txt = ' && '.join(('' if pol else '!') + '(' + c.text()[:50] + ')' for c, pol in conds)
+        if not any(local_to_guard(x) for c, pol in conds for x in c.walk()):
+            return False, (f'the {g} {what} calls {opname}() only if {txt}: that condition reads state shared by every guard of the thread / the program, not this guard\'s resource — '
+                           f'while a guard on another Resource is alive the {what} skips the operation, so the resource is used without the lock (or left locked)')
+        return None, f'the {g} {what} calls {opname}() only if {txt}: a conditional guard is outside the forwarding table'
 
     def run(self):
         if self.rep.broken: return
         self.res1()
         self.lock_rows()
+        self.other_writers()
         self.predicate()
         self.unlock_rows()
         self.forwarding()
